@@ -5,6 +5,7 @@ import GaleneVerif.Engine.Codecs
 import GaleneVerif.Engine.Down
 import GaleneVerif.Engine.UpE2E
 import GaleneVerif.Engine.Token
+import GaleneVerif.Engine.Auth
 /-
 Line-protocol driver.  usage: driver <engine> [oracle-only] < trace
 `oracle-only` (failing-input search): model/impl mismatches do not end the case;
@@ -75,7 +76,8 @@ def engines : List (String × EngineDef) :=
     ("codecs", Galene.Engine.Codecs.engine),
     ("down", Galene.Engine.Down.engine),
     ("upe2e", Galene.Engine.UpE2E.engine),
-    ("token", Galene.Engine.Token.engine) ]
+    ("token", Galene.Engine.Token.engine),
+    ("auth", Galene.Engine.Auth.engine) ]
 
 def main (args : List String) : IO UInt32 := do
   let (name?, oracleOnly) := match args with
